@@ -29,6 +29,8 @@ class Undetermined(EngineError):
 
 
 _atom_ids = itertools.count(1)
+_DERIVED = {}
+_CONTAINS = {}
 
 
 class Atom:
@@ -267,6 +269,13 @@ class XStr(Sym):
                 elif p.only is not None and p.exact1 and \
                         len({getattr(c, name)() for c in p.only}) == 1:
                     segs.append((g, getattr(next(iter(p.only)), name)()))   # 'n'|'N' -> 'N'
+                elif p.only is None:
+                    # an opaque text: its case-folded form is another opaque text, a function of it
+                    key = (p.name, name)
+                    d = _DERIVED.get(key)
+                    if d is None:
+                        d = _DERIVED[key] = Atom(f'{p.name}.{name}', excl=p.excl, minlen=p.minlen)
+                    segs.append((g, d))
                 else:
                     raise Undetermined(f'{name}() of {p!r}')
             return XStr(segs).simplify()
@@ -392,14 +401,24 @@ def case_variants(ctx, text, name='cv'):
 def str_of_int(it, v):
     """str(n) for a symbolic int: enumerated when the path condition leaves few values, otherwise
     an atom with provenance (int(str(n)) == n is the assumed law, DESIGN 2.12)."""
-    try:
-        return str(it.ctx.decide_by_model(v.t, cap=16))
-    except EngineError:
-        pass
+    # enumerate only when the path condition confines n to a handful of values
+    r0, m0 = it.ctx._check(z3.BoolVal(True), it.ctx.FEAS_TIMEOUT_MS)
+    if r0 == z3.sat:
+        c0 = m0.eval(v.t, model_completion=True).as_long()
+        if not it.ctx.feasible(z3.Or(v.t > c0 + 8, v.t < c0 - 8)):
+            try:
+                return str(it.ctx.decide_by_model(v.t, cap=20))
+            except EngineError:
+                pass
+    cache = it.ctx.__dict__.setdefault('strofint_cache', {})
+    hit = cache.get(v.t.get_id())
+    if hit is not None and hit[0].eq(v.t):
+        return XStr([(True, hit[1])])       # str() of the same int is the same text
     name = it.ctx.fresh_name('strofint')
     digits = '0123456789' if not it.ctx.feasible(v.t < 0) else '-0123456789'
     a = Atom(name, only=digits, minlen=1, int_of=v, note='str(int)')
     it.ctx.assume_type(z3.Length(a.t) >= 1)
+    cache[v.t.get_id()] = (v.t, a)
     return XStr([(True, a)])
 
 
@@ -507,6 +526,14 @@ def str_contains(it, cont, x):
         if not any(all(piece_may_contain(p, ch) for ch in sx) or
                    any(piece_may_contain(p, ch) for ch in sx) for _, p in cont.segs):
             return False
+    if isinstance(sx, str) and len(cont.segs) == 1 and cont.segs[0][0] is True and \
+            isinstance(cont.segs[0][1], Atom):
+        # substring test on an opaque text: an unknown Boolean that is a function of the text
+        key = (cont.segs[0][1].name, sx)
+        b = _CONTAINS.get(key)
+        if b is None:
+            b = _CONTAINS[key] = z3.Bool(f'contains[{key[0]},{sx!r}]')
+        return mk_bool(b)
     raise Undetermined(f'{x!r} in {cont!r}')
 
 
